@@ -49,10 +49,49 @@ func ruleExpansion(w *World, r *Report) {
 	isV := func(g *ssa.Function) bool { return funcIs(g, modPath+"/integrate", "VerticalZoom") }
 	names := map[rel]string{relLT: "hZoom < vZoom", relEQ: "hZoom == vZoom", relGT: "hZoom > vZoom"}
 	for _, rl := range []rel{relLT, relEQ, relGT} {
-		reach := simulate(f.Blocks[0], nil, oracleFor([]pairRel{{hz, vz, rl}}))
-		var hCalls, vCalls []*ssa.Call
-		appends := 0
-		for b := range reach {
+		orc := oracleFor([]pairRel{{hz, vz, rl}})
+		// which of the two zooms does a target expression denote under this ordering?
+		var denotes func(v ssa.Value, d int) string
+		denotes = func(v ssa.Value, d int) string {
+			v = resolve(v)
+			if d > 4 {
+				return "?"
+			}
+			if equivValue(v, hz) {
+				return "h"
+			}
+			if equivValue(v, vz) {
+				return "v"
+			}
+			if c, ok := v.(*ssa.Call); ok && builtinName(c) == "max" && len(c.Call.Args) == 2 {
+				a, b := denotes(c.Call.Args[0], d+1), denotes(c.Call.Args[1], d+1)
+				if (a == "h" && b == "v") || (a == "v" && b == "h") {
+					return "max"
+				}
+			}
+			if p, ok := v.(*ssa.Phi); ok {
+				if pv, uniq := phiValueUnder(f, p, orc); uniq {
+					return denotes(pv, d+1)
+				}
+			}
+			return "?"
+		}
+		okTarget := func(s string) bool {
+			switch rl {
+			case relLT:
+				return s == "v" || s == "max"
+			case relGT:
+				return s == "h" || s == "max"
+			}
+			return s == "h" || s == "v" || s == "max"
+		}
+		reach := simulate(f.Blocks[0], nil, orc)
+		nH, nV, appends := 0, 0, 0
+		bad := ""
+		for _, b := range f.Blocks {
+			if !reach[b] {
+				continue
+			}
 			for _, in := range b.Instrs {
 				c, ok := in.(*ssa.Call)
 				if !ok {
@@ -61,51 +100,38 @@ func ruleExpansion(w *World, r *Report) {
 				if builtinName(c) == "append" {
 					appends++
 				}
-				if g := calleeOf(c); g != nil {
-					if isH(g) {
-						hCalls = append(hCalls, c)
+				g := calleeOf(c)
+				if g == nil {
+					continue
+				}
+				if isH(g) {
+					nH++
+					if t := denotes(c.Call.Args[3], 0); !okTarget(t) {
+						bad = "the horizontal axis is brought to the wrong zoom (target denotes " + t + ")"
 					}
-					if isV(g) {
-						vCalls = append(vCalls, c)
+				}
+				if isV(g) {
+					nV++
+					if t := denotes(c.Call.Args[2], 0); !okTarget(t) {
+						bad = "the vertical axis is brought to the wrong zoom (target denotes " + t + ")"
 					}
 				}
 			}
 		}
-		key := fn + " / " + names[rl]
-		bad := ""
-		switch rl {
-		case relLT:
-			if len(hCalls) == 0 || len(vCalls) > 0 {
-				bad = fmt.Sprintf("expected the horizontal axis (only) to be raised, found %d horizontal and %d vertical zoom calls", len(hCalls), len(vCalls))
-			} else {
-				for _, c := range hCalls {
-					if !equivValue(c.Call.Args[3], vz) {
-						bad = "the horizontal axis is not raised to VZoom()"
-					}
-				}
-			}
-		case relGT:
-			if len(vCalls) == 0 || len(hCalls) > 0 {
-				bad = fmt.Sprintf("expected the vertical axis (only) to be raised, found %d vertical and %d horizontal zoom calls", len(vCalls), len(hCalls))
-			} else {
-				for _, c := range vCalls {
-					if !equivValue(c.Call.Args[2], hz) {
-						bad = "the vertical axis is not raised to HZoom()"
-					}
-				}
-			}
-		case relEQ:
-			if len(hCalls) > 0 || len(vCalls) > 0 {
-				bad = "a zoom change is applied although both zooms are equal"
-			}
+		if bad == "" && rl == relLT && nH == 0 {
+			bad = "the coarser horizontal axis is not raised with integrate.HorizontalZoom*"
+		}
+		if bad == "" && rl == relGT && nV == 0 {
+			bad = "the coarser vertical axis is not raised with integrate.VerticalZoom"
 		}
 		if bad == "" && appends == 0 {
 			bad = "no spatial ID is emitted in this case (the voxel is lost)"
 		}
+		key := fn + " / " + names[rl]
 		if bad != "" {
 			r.add("MAXSEL", key, pos, Violated, bad)
 		} else {
-			r.add("MAXSEL", key, pos, Discharged, "correct axis raised to the larger zoom; at least one ID emitted")
+			r.add("MAXSEL", key, pos, Discharged, "every zoom change in this case targets max(hZoom, vZoom); at least one ID emitted")
 		}
 	}
 }
